@@ -63,6 +63,8 @@ def gen_world(rng):
     w['pk_cb_supported'] = rng.random() < 0.6
     for k in w['async']:
         w['async'][k] = rng.random() < 0.5
+    # applications written like examples/simple_keyed_server.py: no key file for some users -> keys left alone
+    w['installs'] = {u: False for u in ('alice', 'bob', 'root', 'guest', 'carol', '') if rng.random() < 0.25}
     return w
 
 
@@ -302,6 +304,28 @@ def scenario_list():
         ('req', dict(user='alice', method='none')), ('settle',), ('complete', 0), ('settle',),
         ('req', dict(user='alice', method='publickey', key='K1', signed=True)), ('turn',),
         ('req', dict(user='bob', method='none')), ('turn',), ('turn',), ('settle',), ('complete', 1), ('settle',)]))
+    # keys installed for an earlier user must not survive a user-name switch: begin_auth(bob) leaves the keys
+    # alone (no key file for bob), nothing is configured globally; alice's key, signed for bob
+    for tag, cbsup in (('inherited_keys', False), ('inherited_keys_cb', True)):
+        w = E.default_world()
+        w['ak'] = {'alice': [dict(key='K1')]}
+        w['installs'] = {'bob': False}
+        w['pk_cb_supported'] = cbsup
+        w['pw'] = [['bob', 'pw-b', 'T']]
+        S.append((tag, w, [
+            ('req', dict(user='alice', method='none')), ('settle',), ('complete', 0), ('settle',),
+            ('req', dict(user='alice', method='publickey', key='K1', signed=False)), ('settle',),
+            ('req', dict(user='bob', method='publickey', key='K1', signed=True)), ('settle',), ('complete', 1), ('settle',),
+            ('req', dict(user='bob', method='publickey', key='K1', signed=True)), ('settle',)]))
+    # ... while configured keys do apply to a user the application installs nothing for
+    w = E.default_world()
+    w['ak'] = {'alice': [dict(key='K1')]}
+    w['ak_server'] = [dict(key='K2', command='cfgcmd')]
+    w['installs'] = {'bob': False}
+    S.append(('configured_keys_for_user_without_file', w, [
+        ('req', dict(user='alice', method='none')), ('settle',), ('complete', 0), ('settle',),
+        ('req', dict(user='bob', method='publickey', key='K1', signed=True)), ('settle',), ('complete', 1), ('settle',),
+        ('req', dict(user='bob', method='publickey', key='K2', signed=True)), ('settle',)]))
     # channel open before authentication
     S.append(('gate', E.default_world(), [('msg', dict(kind='chan_open')), ('settle',)]))
     # password change: PASSWD_CHANGEREQ, then the change request is accepted
@@ -397,7 +421,7 @@ def judge(world, res):
             seen_s = True
         if r[0] == 'V' and not seen_s:
             bad.append(('gate', 'connection-layer message type %d answered before USERAUTH_SUCCESS' % r[1]))
-    if res.enforced is not None and len(res.enforced) == 3 and res.completed_as:
+    if res.enforced is not None and len(res.enforced) == 4 and res.completed_as:
         U = res.completed_as[0]
         allowed = set()
         for p in D:
@@ -405,7 +429,8 @@ def judge(world, res):
                 allowed.add(E.enforce(ko, co))
         if allowed and tuple(res.enforced) not in allowed:
             bad.append(('restrictions_mismatch',
-                        'authenticated as %r; enforced (forced command, pty, forwarding to h1:80) = %r but the '
+                        'authenticated as %r; enforced (forced command, pty, forwarding to h1:80, what exec/shell/subsystem other/'
+                        'subsystem sftp requests start) = %r but the '
                         'credentials that entitle %r give %r' % (U, tuple(res.enforced), U, sorted(allowed, key=repr))))
     return bad
 
@@ -449,10 +474,14 @@ def stats_of(ctx, world, res):
         ctx.count('outcome.authenticated_as.' + (res.completed_as[0] or '<empty>'))
     else:
         ctx.count('outcome.not_authenticated')
-    if res.enforced is not None and len(res.enforced) == 3:
+    if res.enforced is not None and len(res.enforced) == 4:
         ctx.count('probe.run')
         if res.enforced[0] is not None:
             ctx.count('probe.forced_command')
+            if res.enforced[3][2][0] == 'exec' and res.enforced[3][3][0] == 'exec':
+                ctx.count('probe.forced_command_replaces_subsystem')
+        elif res.enforced[3][3] == ('subsys', 'sftp'):
+            ctx.count('probe.subsystem_unrestricted')
         if not res.enforced[1]:
             ctx.count('probe.pty_denied')
         if not res.enforced[2]:
@@ -548,7 +577,8 @@ def stage_server(ctx):
     need = ['history.user_switch', 'history.pipelined_pair', 'history.completions_out_of_order',
             'history.packet_between_completion_and_wakeup', 'history.request_after_success',
             'outcome.authenticated', 'outcome.not_authenticated',
-            'outcome.disconnected', 'probe.run', 'probe.forced_command', 'probe.pty_denied', 'probe.forwarding_denied',
+            'outcome.disconnected', 'probe.run', 'probe.forced_command', 'probe.forced_command_replaces_subsystem',
+            'probe.subsystem_unrestricted', 'probe.pty_denied', 'probe.forwarding_denied',
             'reply.S', 'reply.F', 'reply.K', 'reply.I', 'reply.C', 'reply.U', 'reply.V',
             'request.password', 'request.publickey', 'request.keyboard-interactive', 'request.none',
             'request.signature_tampered', 'callback.validate_password', 'callback.validate_public_key',
@@ -636,6 +666,81 @@ async def client_half(ctx):
     ctx.cov['oracle']['client_half'] = [[a, b] for a, b, _, _ in results]
 
 
+async def restriction_factories(ctx):
+    """oracle only: the forced command of the accepted credential (authorized_keys command= / certificate
+    force-command) governs every way a session can start when the server is built from process_factory +
+    sftp_factory + allow_scp: exec, shell, a custom subsystem, the sftp subsystem and an scp command all run the
+    forced command and no SFTP server is ever created; an unrestricted key gets what it asked for."""
+    import asyncssh
+    from .. import memwire
+    p = E.pool()
+    d = tempfile.mkdtemp(prefix='c05-sftp-', dir='/var/tmp')
+    open(os.path.join(d, 'secret.txt'), 'w').write('x')
+    import base64
+    cert = asyncssh.import_certificate(b'ssh-ed25519-cert-v01@openssh.com ' + base64.b64encode(p.cert_blob['C9']))
+    ak = E.ak_object([dict(key='K1'), dict(key='K2', command='backup-only'), dict(key='CA1', ca=True)])
+    creds = [('unrestricted_key', [p.akey['K1']], None), ('command_key', [p.akey['K2']], 'backup-only'),
+             ('force_command_cert', [(p.akey['K4'], cert)], 'c9forced')]
+    out = []
+    try:
+        for label, keys, forced in creds:
+            log = []
+
+            def pf(process, log=log):
+                log.append(('process', process.command, process.subsystem))
+                process.exit(0)
+
+            def sf(chan, log=log):
+                log.append(('sftp',))
+                return asyncssh.SFTPServer(chan, chroot=d.encode())
+            tun, wire, acc, conn = await memwire.connected_pair(
+                asyncssh.SSHServer, srv_kw=dict(authorized_client_keys=ak, process_factory=pf, sftp_factory=sf,
+                                                allow_scp=True, encoding=None),
+                cli_kw=dict(username='alice', client_keys=keys, agent_path=None))
+            seen = {}
+            try:
+                async def attempt(name, coro):
+                    mark = len(log)
+                    try:
+                        await asyncio.wait_for(coro, 20)
+                    except (asyncssh.Error, OSError, asyncio.TimeoutError, EOFError):
+                        pass
+                    await memwire.settle(8)
+                    seen[name] = [tuple(e) for e in log[mark:]]
+                await attempt('exec', conn.run('x'))
+                await attempt('shell', conn.run())
+                await attempt('subsystem', conn.run(subsystem='other'))
+
+                async def sftp_ls():
+                    c = await conn.start_sftp_client()
+                    await c.listdir('.')
+                    c.exit()
+                await attempt('sftp', sftp_ls())
+                await attempt('scp', conn.run('scp -f /secret.txt'))
+            finally:
+                conn.abort()
+                acc.close()
+                await memwire.settle(6)
+            if forced is None:
+                want = {'exec': [('process', 'x', None)], 'shell': [('process', None, None)],
+                        'subsystem': [('process', None, 'other')], 'sftp': [('sftp',)], 'scp': [('sftp',)]}
+            else:
+                want = {k: [('process', forced, None)] for k in ('exec', 'shell', 'subsystem', 'sftp', 'scp')}
+            ok = seen == want
+            out.append([label, ok])
+            ctx.note_case(('factories', label), nontrivial=True)
+            ctx.count('factories.' + label + ('.ok' if ok else '.FAILED'))
+            if not ok:
+                bad = {k: (seen.get(k), want[k]) for k in want if seen.get(k) != want[k]}
+                ctx.failing_input('restrictions of the accepted credential (%s, forced command %r) are not the ones enforced '
+                                  'for these session starts (observed, documented): %r' % (label, forced, bad),
+                                  {'kind': 'factories', 'class': 'restrictions_mismatch', 'label': label,
+                                   'detail': repr(bad)})
+    finally:
+        shutil.rmtree(d, ignore_errors=True)
+    ctx.cov['oracle']['restriction_factories'] = out
+
+
 async def agent_session(reader, writer, keynames):
     """minimal ssh-agent (draft-miller-ssh-agent): REQUEST_IDENTITIES and SIGN_REQUEST for Ed25519 keys"""
     from .. import minissh as M
@@ -680,7 +785,9 @@ def run(ctx):
         'reload_config executor job) that the harness completes in a generated order, interleaved with packet delivery '
         'at the granularity of single event-loop iterations; a history is non-trivial when it has at least two packets; '
         'distinct = distinct (world, executed operation list, outcome). 40 fixed scenarios run first (one per mechanism '
-        'and per refuted theorem). client side: a real asyncssh client with password / key / certificate / agent-held '
+        'and per refuted theorem). after success the probe starts exec / shell / subsystem / sftp sessions, pty and '
+        'direct-tcpip, and a process_factory + sftp_factory + allow_scp server is driven by a real client per restricted '
+        'credential. client side: a real asyncssh client with password / key / certificate / agent-held '
         'key against a real server.')
     ctx.cov['trusted_base'] += [
         'Model/Auth.v models _process_userauth_request, _finish_userauth, lookup_server_auth, the password / publickey / '
@@ -690,8 +797,9 @@ def run(ctx):
         '`_refuted` theorems, whose witnesses are replayed on the implementation as fixed scenarios and must NOT '
         'reproduce',
         'application callbacks, utf-8 + saslprep, key / certificate blob decoding, signature verification, time and the '
-        'from= / source-address matches are parameters of the model (record `world`); theorems hold for every world; the '
-        'application is assumed to install the named user\'s authorized keys in begin_auth (documented pattern)',
+        'from= / source-address matches are parameters of the model (record `world`); theorems hold for every world; whether '
+        'begin_auth installs keys for a user, installs none or leaves them alone is a per-user parameter too; reload_config '
+        'is modelled as putting the configured key set back before every begin_auth',
         'signature verification is symbolic in Coq (a signature verifies exactly for the (key, data) it was made for); the '
         'Python oracle verifies Ed25519 with `cryptography`',
         'on a connection that has been closed the correspondence only requires that the implementation did at least what '
@@ -706,6 +814,7 @@ def run(ctx):
     ctx.prove()
     stage_server(ctx)
     E.sshutil_run(client_half(ctx))
+    E.sshutil_run(restriction_factories(ctx))
 
 
 def replay(rp):
